@@ -165,18 +165,21 @@ def rewrite (c : Client) : List Hdr → Nat → Option Client
     | some hd =>
       rewrite { c with cons := upd c.cons height (some (consOf hd)), heights := insertHeight height c.heights } rest (height + 1)
 
+/-- first step of `RestrictChain`: when the old latest header is higher than the new one, the
+    main-chain header at the new one's height, found through the consensus state's root -/
+def startOf (c : Client) (old new : Hdr) : Option Hdr :=
+  if old.number > new.number then
+    match c.cons new.number with
+    | none => none
+    | some k =>
+      match c.rootMain (k.root, new.number) with
+      | none => none
+      | some key => c.idx key
+  else some old
+
 /-- `RestrictChain(new)` with `old` the latest header before this update -/
 def restrict (c : Client) (old new : Hdr) : Option Client :=
-  let start : Option Hdr :=
-    if old.number > new.number then
-      match c.cons new.number with
-      | none => none
-      | some k =>
-        match c.rootMain (k.root, new.number) with
-        | none => none
-        | some key => c.idx key
-    else some old
-  match start with
+  match startOf c old new with
   | none => none
   | some cur =>
     match descend c new [] (new.number - cur.number) with
